@@ -223,6 +223,91 @@ def executed_passed(tree):
     raise TranslatorError("find_topological_order does not call _add_dependency_among_commuting_gates")
 
 
+def method_tests(tree):
+    """The three places of `Scheduler.schedule` that look at `self.method`, in source order: reversal of the dependency
+    graph before the passes, reversal of the returned cycles list, reversal of the graph before the start times are read.
+    Each must be `if self.method == "<literal>": <one call>`; `self.method` must not occur anywhere else in the class
+    except `self.method = method` in `__init__`.  -> the three literals"""
+    cls = next((n for n in tree.body if isinstance(n, ast.ClassDef) and n.name == "Scheduler"), None)
+    if cls is None:
+        raise TranslatorError("class Scheduler not found")
+
+    def is_method(e):
+        return isinstance(e, ast.Attribute) and e.attr == "method" and isinstance(e.value, ast.Name) and e.value.id == "self"
+    sched = find_method(tree, "Scheduler", "schedule")
+    sites, used = [], set()
+    for node in ast.walk(sched):
+        if isinstance(node, ast.If) and isinstance(node.test, ast.Compare) and is_method(node.test.left):
+            t = node.test
+            if not (len(t.ops) == 1 and isinstance(t.ops[0], ast.Eq) and isinstance(t.comparators[0], ast.Constant)
+                    and isinstance(t.comparators[0].value, str) and not node.orelse and len(node.body) == 1
+                    and isinstance(node.body[0], ast.Expr) and isinstance(node.body[0].value, ast.Call)
+                    and isinstance(node.body[0].value.func, ast.Attribute)):
+                raise TranslatorError("a test of self.method in Scheduler.schedule is not `if self.method == \"…\": <call>`")
+            sites.append((node.lineno, t.comparators[0].value, node.body[0].value.func.attr))
+            used.add(id(t.left))
+    sites.sort()
+    if [x[2] for x in sites] != ["reverse_graph", "reverse", "reverse_graph"]:
+        raise TranslatorError("Scheduler.schedule does not test self.method at exactly the three expected places "
+                              "(graph reversal, cycles reversal, graph reversal): " + str([x[2] for x in sites]))
+    for fn in cls.body:
+        if not isinstance(fn, ast.FunctionDef):
+            continue
+        for node in ast.walk(fn):
+            if is_method(node) and id(node) not in used:
+                ok = fn.name == "__init__" and isinstance(node.ctx, ast.Store)
+                if not ok:
+                    raise TranslatorError(f"self.method is used in Scheduler.{fn.name} outside the three recognised tests")
+    init = find_method(tree, "Scheduler", "__init__")
+    stores = [n for n in ast.walk(init) if isinstance(n, ast.Assign) and any(is_method(t) for t in n.targets)]
+    if len(stores) != 1 or not (isinstance(stores[0].value, ast.Name) and stores[0].value.id == "method"):
+        raise TranslatorError("Scheduler.__init__ does not store its argument `method` unchanged")
+    return [x[1] for x in sites]
+
+
+def constraint_combination(tree):
+    """`Scheduler.apply_constraint`: `result = []; for f in self.constraint_functions: result.append(f(ind1, ind2, instructions));
+    return all(result)`  ->  "all"   (the same with `any` -> "any"); anything else is refused.  Also checks that `__init__`
+    keeps a given list and uses `[qubit_constraint]` for `None`."""
+    fn = find_method(tree, "Scheduler", "apply_constraint")
+    args = [a.arg for a in fn.args.args]
+    body = [b for b in fn.body if not (isinstance(b, ast.Expr) and isinstance(b.value, ast.Constant))]
+    try:
+        a, loop, ret = body
+        acc = a.targets[0].id
+        assert isinstance(a, ast.Assign) and isinstance(a.value, ast.List) and not a.value.elts
+        assert isinstance(loop, ast.For) and isinstance(loop.target, ast.Name) and not loop.orelse
+        it = loop.iter
+        assert isinstance(it, ast.Attribute) and it.attr == "constraint_functions" and it.value.id == "self"
+        (st,) = loop.body
+        call = st.value
+        assert isinstance(st, ast.Expr) and call.func.attr == "append" and call.func.value.id == acc
+        (inner,) = call.args
+        assert isinstance(inner, ast.Call) and inner.func.id == loop.target.id and not inner.keywords
+        assert [x.id for x in inner.args] == args[1:4]
+        assert isinstance(ret, ast.Return) and isinstance(ret.value, ast.Call) and ret.value.func.id in ("all", "any")
+        assert len(ret.value.args) == 1 and ret.value.args[0].id == acc
+        comb = ret.value.func.id
+    except (AssertionError, AttributeError, ValueError, IndexError, TypeError):
+        raise TranslatorError("Scheduler.apply_constraint is not `collect the verdict of every constraint function; return all(...)`")
+    init = find_method(tree, "Scheduler", "__init__")
+    ok = False
+    for node in ast.walk(init):
+        if isinstance(node, ast.If) and isinstance(node.test, ast.Compare) and isinstance(node.test.left, ast.Name) \
+                and node.test.left.id == "constraint_functions" and isinstance(node.test.ops[0], ast.Is) \
+                and isinstance(node.test.comparators[0], ast.Constant) and node.test.comparators[0].value is None:
+            try:
+                (b,), (e,) = node.body, node.orelse
+                ok = (isinstance(b.value, ast.List) and [x.id for x in b.value.elts] == ["qubit_constraint"]
+                      and b.targets[0].attr == "constraint_functions" and e.targets[0].attr == "constraint_functions"
+                      and isinstance(e.value, ast.Name) and e.value.id == "constraint_functions")
+            except (AttributeError, ValueError):
+                ok = False
+    if not ok:
+        raise TranslatorError("Scheduler.__init__ does not set constraint_functions to the argument / [qubit_constraint] for None")
+    return comb
+
+
 HEADER = '''import QipVerif.Model.Sched
 /-!
 GENERATED by py/translate/sched.py from `qutip_qip/compiler/scheduler.py` of the tree under test — do not edit.
@@ -232,6 +317,10 @@ GENERATED by py/translate/sched.py from `qutip_qip/compiler/scheduler.py` of the
 * `commutationRules`  the body of `Scheduler.commutation_rules` (`a = instructions[ind1]`, `b = instructions[ind2]`),
                       statement by statement; code after an `if` is repeated in both branches
 * `conflictFix`       `_add_dependency_among_commuting_gates` also records an edge from every executed instruction
+* `methodTests`       the string literals `self.method` is compared with at the three places of `Scheduler.schedule`
+                      (graph reversal, reversal of the returned cycles, graph reversal before the start times)
+* `alapAt k m`        the test at place `k` for the constructor argument `m` (`none`: not a `str`)
+* `applyConstraint`   `Scheduler.apply_constraint` as a function of the list of verdicts of `constraint_functions`
 -/
 namespace QipVerif.Gen.SchedRule
 open QipVerif.Sched
@@ -255,6 +344,8 @@ def generate():
     fx = conflict_fix(tree)
     if fx and not executed_passed(tree):
         raise TranslatorError("find_topological_order does not pass the executed instructions")
+    mtests = method_tests(tree)
+    comb = constraint_combination(tree)
     out = [HEADER]
     if names is None:
         out.append("def selfCommuting : Option (List String) := none\n\n")
@@ -264,6 +355,9 @@ def generate():
     out.append("def inSet (s : String) : Bool :=\n  match selfCommuting with\n  | none => true\n  | some l => l.contains s\n\n")
     out.append("def commutationRules (a b : Ins) : Bool :=\n" + "\n".join(body) + "\n\n")
     out.append(f"def conflictFix : Bool := {'true' if fx else 'false'}\n\n")
+    out.append("def methodTests : List String := [" + ", ".join(lean_str(t) for t in mtests) + "]\n\n")
+    out.append("def alapAt (k : Nat) (m : Option String) : Bool := m == some (methodTests.getD k \"\")\n\n")
+    out.append(f"def applyConstraint (vs : List Bool) : Bool := vs.{comb} id\n\n")
     out.append("end QipVerif.Gen.SchedRule\n")
     return "".join(out), {"names": names, "conflict_fix": fx}
 
